@@ -93,3 +93,13 @@ package cli
 //@ requires typeis(bc, *app.bookmarksCollection)
 //@ noframe
 //@ ensures isnil(result) && mapisempty(bc.(*app.bookmarksCollection).bookmarks)
+
+// ---------------------------------------------------------------------------------------------
+// stop.go — property C17: the step that closes the open range. When the command fell back to yesterday's record the
+// end time is the current (rounded) time plus 24h; a time that cannot be represented must make the step fail - the
+// reconciler must never be handed a nil time (CloseOpenRange's precondition at the call site).
+//@ func (*Stop).Run$2
+//@ requires opt != nil && nonnil(ctx) && reconciler != nil && reconciling.recOk(reconciler) && typeis(time, *klog.time) && typeis(yesterday, *klog.date)
+//@ requires typeis(reconciler.Record.(*klog.record).date, *klog.date)
+//@ noframe
+//@ ensures true
